@@ -69,6 +69,34 @@ impl AlignedBuf {
     }
 }
 
+/// A copy of `bytes` whose first byte sits at an address congruent to `off` modulo 8: the answers of
+/// the library must not depend on where the caller's bytes happen to live.
+pub struct OffsetBuf {
+    store: Vec<u64>,
+    off: usize,
+    len: usize,
+}
+impl OffsetBuf {
+    pub fn new(bytes: &[u8], off: usize) -> Self {
+        let off = off % 8;
+        let mut store = vec![0u64; (bytes.len() + off) / 8 + 1];
+        unsafe {
+            std::ptr::copy_nonoverlapping(bytes.as_ptr(), (store.as_mut_ptr() as *mut u8).add(off), bytes.len());
+        }
+        OffsetBuf { store, off, len: bytes.len() }
+    }
+    pub fn bytes(&self) -> &[u8] {
+        unsafe { std::slice::from_raw_parts((self.store.as_ptr() as *const u8).add(self.off), self.len) }
+    }
+    /// overwrite the content in place (same address, same length)
+    pub fn overwrite(&mut self, bytes: &[u8]) {
+        assert_eq!(bytes.len(), self.len);
+        unsafe {
+            std::ptr::copy_nonoverlapping(bytes.as_ptr(), (self.store.as_mut_ptr() as *mut u8).add(self.off), bytes.len());
+        }
+    }
+}
+
 pub fn quiet_panics() {
     std::panic::set_hook(Box::new(|_| {}));
 }
